@@ -121,15 +121,20 @@ class Evaluator:
         return e.value
 
     def e_Name(self, e: ast.Name) -> T.Any:
-        if self.consts is not None:
-            return self.consts(e)
+        c = self.consts or CONSTS
+        if c is not None:
+            return c(e)
         return UNKNOWN
 
     def e_Attribute(self, e: ast.Attribute) -> T.Any:
         # attribute of an absent object (None) is an error path, not a value; unknown otherwise
-        if self.consts is not None and attr_chain(e) is not None:
-            return self.consts(e)
+        c = self.consts or CONSTS
+        if c is not None and attr_chain(e) is not None:
+            return c(e)
         return UNKNOWN
+
+    def e_NamedExpr(self, e: ast.NamedExpr) -> T.Any:
+        return self.ev(e.value)
 
     def _seq(self, elts: T.List[ast.expr]) -> T.Any:
         out = []
@@ -213,7 +218,30 @@ class Evaluator:
             return UNKNOWN
         return UNKNOWN
 
+    def _len_vs_zero(self, e: ast.Compare) -> T.Any:
+        """len(X) > 0, len(X) != 0, len(X) >= 1, 0 < len(X) ...  ==  truthiness of X (and the negations)."""
+        if len(e.ops) != 1:
+            return UNKNOWN
+        l, r, op = e.left, e.comparators[0], e.ops[0]
+        flip = {ast.Lt: ast.Gt, ast.Gt: ast.Lt, ast.LtE: ast.GtE, ast.GtE: ast.LtE, ast.Eq: ast.Eq, ast.NotEq: ast.NotEq}
+        if isinstance(l, ast.Constant) and type(op) in flip:
+            l, r, op = r, l, flip[type(op)]()
+        if not (isinstance(l, ast.Call) and isinstance(l.func, ast.Name) and l.func.id == 'len' and len(l.args) == 1
+                and isinstance(r, ast.Constant) and r.value in (0, 1) and not isinstance(r.value, bool)):
+            return UNKNOWN
+        t = truth(self.ev(l.args[0]))
+        if t is None:
+            return UNKNOWN
+        nonempty = {(ast.Gt, 0): True, (ast.NotEq, 0): True, (ast.GtE, 1): True, (ast.Eq, 0): False, (ast.LtE, 0): False, (ast.Lt, 1): False}
+        k = (type(op), r.value)
+        if k not in nonempty:
+            return UNKNOWN
+        return t if nonempty[k] else not t
+
     def e_Compare(self, e: ast.Compare) -> T.Any:
+        lz = self._len_vs_zero(e)
+        if lz is not UNKNOWN:
+            return lz
         left = self.ev(e.left)
         res: T.Any = True
         for op, right_e in zip(e.ops, e.comparators):
@@ -334,6 +362,17 @@ class Evaluator:
         if isinstance(f, ast.Name):
             if f.id in ('any', 'all'):
                 return self._quant(e, f.id == 'any')
+            if f.id == 'next' and len(e.args) == 2 and isinstance(e.args[0], ast.GeneratorExp) and len(e.args[0].generators) == 1:
+                # next((E for t in I if C), D)  ==  E' if any(C for t in I) else D   (E constant)
+                g = e.args[0]
+                if isinstance(g.elt, ast.Constant) and g.generators[0].ifs:
+                    cond: ast.AST = g.generators[0].ifs[0] if len(g.generators[0].ifs) == 1 else ast.BoolOp(op=ast.And(), values=list(g.generators[0].ifs))
+                    q = self._quant(ast.Call(func=ast.Name(id='any', ctx=ast.Load()), args=[ast.GeneratorExp(elt=cond, generators=[
+                        ast.comprehension(target=g.generators[0].target, iter=g.generators[0].iter, ifs=[], is_async=0)])], keywords=[]), True)
+                    t = truth(q)
+                    if t is None:
+                        return UNKNOWN
+                    return g.elt.value if t else self.ev(e.args[1])
             if f.id == 'len' and len(e.args) == 1:
                 v = self.ev(e.args[0])
                 if v is UNKNOWN or isinstance(v, Present):
@@ -496,6 +535,9 @@ def bind_args(fn: ast.AST, call: ast.Call, skip_first: bool) -> T.Optional[T.Dic
         m[k.arg] = k.value
     return m
 
+
+# set by the rule pack: Name / dotted constant -> folded value of a module or class constant (UNKNOWN otherwise)
+CONSTS: T.Optional[T.Callable[[ast.AST], T.Any]] = None
 
 # set by the rule pack for the class being analysed: Call -> inlined expression (parameters replaced by the arguments) or None
 INLINER: T.Optional[T.Callable[[ast.Call], T.Optional[ast.AST]]] = None
@@ -721,8 +763,21 @@ def _walk(p: Path, prefix: T.List[Event], hyp: Hyp, observer: T.Optional[Observe
     contradicted_vol = False
     notes: T.Dict[str, T.Any] = {}
 
+    attr_binds: T.Dict[str, ast.AST] = {}     # field stores of a pure expression: x.f = E  (copy propagation through fields)
+
+    class _AttrSub(ast.NodeTransformer):
+        def visit_Attribute(self, n: ast.Attribute) -> ast.AST:
+            if isinstance(n.ctx, ast.Load):
+                k = norm(n)
+                if k in attr_binds:
+                    return copy.deepcopy(attr_binds[k])
+            return self.generic_visit(n)
+
     def sub(e: ast.AST) -> ast.AST:
-        return subst(e, binds)
+        e2 = subst(e, binds)
+        if attr_binds and any(isinstance(n, ast.Attribute) and norm(n) in attr_binds for n in ast.walk(e2)):
+            e2 = _AttrSub().visit(copy.deepcopy(e2))
+        return e2
 
     opaque: T.Set[str] = set()          # locals whose value the walker lost (loop-carried, unpacked, result of an impure call)
     loop_entry: T.Dict[int, T.Any] = {}
@@ -751,6 +806,11 @@ def _walk(p: Path, prefix: T.List[Event], hyp: Hyp, observer: T.Optional[Observe
                 return None
         if ev.kind == 'cond':
             e = sub(ev.node)
+            for ne in [x for x in ast.walk(ev.node) if isinstance(x, ast.NamedExpr)]:
+                unbind([ne.target])
+                if _bindable(ne.value):
+                    binds[ne.target.id] = sub(ne.value)
+                    opaque.discard(ne.target.id)
             full = dict(stable)
             full.update(volatile)
             v = truth(Evaluator(full, consts, calls, hyp.atoms).ev(e))
@@ -818,6 +878,9 @@ def _walk(p: Path, prefix: T.List[Event], hyp: Hyp, observer: T.Optional[Observe
             f = c.func
             is_mut = isinstance(f, ast.Attribute) and f.attr in MUTATORS
             for ch in chains:
+                for k in [k for k in attr_binds if related(ch, k)]:
+                    attr_binds.pop(k)
+            for ch in chains:
                 if any(related(ch, kc) for k in volatile for kc in _chains_of_key(k)):
                     contradicted_vol = False
                     notes.setdefault('touched', []).append(short(c, 70))
@@ -836,9 +899,15 @@ def _walk(p: Path, prefix: T.List[Event], hyp: Hyp, observer: T.Optional[Observe
                 elif isinstance(t, (ast.Tuple, ast.List)):
                     unbind([t])
                 else:
-                    tk = norm(sub(t))
+                    tk = norm(subst(t, binds))
                     was_vol = tk in volatile
                     kill(tk)
+                    for k in [k for k in attr_binds if related(tk, k)]:
+                        attr_binds.pop(k)
+                    if len(node.targets) == 1 and not isinstance(val, ast.Constant) and _bindable(val) and attr_chain(t) is not None \
+                            and not any(isinstance(n, ast.Call) and not (isinstance(n.func, ast.Attribute) and n.func.attr in STR_METHODS) for n in ast.walk(val)) \
+                            and tk not in {norm(n) for n in ast.walk(val) if isinstance(n, ast.Attribute)}:
+                        attr_binds[tk] = sub(val)
                     if isinstance(val, ast.Constant) and len(node.targets) == 1:
                         # a constant store decides later tests of the same location (x.f = True; if x.f:);
                         # nothing computed from inputs is ever propagated through a statement
